@@ -130,3 +130,19 @@ func vpH_C20_T_restart_straggler() {
 	_ = s.e.Stop()
 	vpQuiesce()
 }
+
+// a graceful shutdown with DeleteKey against a store that answers the Delete after the shutdown's time-out
+func vpH_C20_T_stop_slow_delete() {
+	vpSetOpt("race", 1)
+	tm := vpTimings[0]
+	s := vpLeadingInstance(tm, 0, nil)
+	s.kv.opLeft = 20
+	s.kv.latOps = "delete"
+	s.kv.lat = 600 * time.Millisecond
+	s.kv.latMin = s.kv.lat
+	time.Sleep(tm.H / 4)
+	_ = s.e.StopWithContext(vpRootCtx(), StopOptions{DeleteKey: true, Timeout: 300 * time.Millisecond})
+	time.Sleep(2 * time.Second) // the late answer arrives
+	vpQuiesce()
+	vpCover("C20.stop-slow-delete")
+}
